@@ -222,6 +222,7 @@ def body_short(case, note):
 
 PH = "ZQ~%d~QZ"
 PH_RE = re.compile(r"ZQ~(\d+)~QZ")
+ZH_RE = re.compile(r"ZH~(\d+)~HZ")
 EOLS = ["\n", "", "\r\n", "  ", "\t"]
 
 
@@ -298,7 +299,7 @@ def tree_strategy():
             {"k": "none"},
         ]
     )
-    hows = st.sampled_from(["ctor", "ctor", "append", "extend", "insert", "list", "tuple", "taglist", "tfy", "tfylist"])
+    hows = st.sampled_from(["ctor", "ctor", "append", "extend", "insert", "list", "tuple", "taglist", "tfy", "tfylist", "samelist", "htmltwin"])
 
     def tag(children):
         return st.builds(
@@ -334,6 +335,7 @@ class _Builder:
         self.slots: list = []
         self.hows: set = set()
         self.has_tfy = False
+        self.mult: dict = {}  # slot index -> how many times it is expected in the output (same container object given twice)
 
     def node(self, r):
         import htmltools as h
@@ -359,7 +361,24 @@ class _Builder:
         assert k == "tag"
         ops = []
         for how, idx, kid in r["kids"]:
-            ops.append((how, idx, self.node(kid)))
+            n0 = self.n
+            o = self.node(kid)
+            if how == "samelist":
+                # one list object holding the child, given twice in the same call: the child is there twice
+                for i in range(n0, self.n):
+                    self.mult[i] = self.mult.get(i, 1) * 2
+                cell = [o]
+                o = [cell, cell]
+                self.hows.add("samelist")
+                how = "ctor" if not any(x[0] in ("append", "extend", "insert") for x in ops) else "append"
+            elif how == "htmltwin":
+                if kid["k"] == "slot":
+                    # the very same characters marked as trusted markup right before the plain child, in the same call
+                    twin = slot_text(kid["v"]) if self.real else "ZH~%d~HZ" % n0
+                    o = [h.HTML(twin), o]
+                    self.hows.add("htmltwin")
+                how = "ctor" if not any(x[0] in ("append", "extend", "insert") for x in ops) else "append"
+            ops.append((how, idx, o))
         # constructor-time children first (in order), then the incremental operations
         first_inc = next((i for i, o in enumerate(ops) if o[0] in ("append", "extend", "insert")), len(ops))
         ctor_args = []
@@ -500,12 +519,13 @@ def _slots_body(case, note):
     for (label, r0), (_, r1) in zip(outs0, outs1):
         found = [int(m.group(1)) for m in PH_RE.finditer(r0)]
         if label.startswith("TagList"):
-            check(sorted(found) == list(range(len(slots))), f"{label}: a text child was dropped or duplicated", found, r0)
+            check(sorted(found) == sorted(i for i in range(len(slots)) for _ in range(b0.mult.get(i, 1))), f"{label}: a text child was dropped or duplicated", found, r0)
         parts = PH_RE.split(r0)  # lit0, idx0, lit1, idx1, ..., litN
         pos = {0}
         lits = parts[0::2]
         idxs = [int(x) for x in parts[1::2]]
         for j, lit in enumerate(lits):
+            lit = ZH_RE.sub(lambda m: slot_text(slots[int(m.group(1))]), lit)  # trusted twins: verbatim
             pos = {p + len(lit) for p in pos if r1.startswith(lit, p)}
             check(bool(pos), f"{label}: output structure differs from the placeholder template near segment {j}", lit, r1, r0)
             if j < len(idxs):
@@ -563,7 +583,7 @@ CLAUSES = [
         quick=1200,
         thorough=20000,
         shards_quick=4,
-        required=("how:append", "how:extend", "how:insert", "how:list", "how:tfy", "how:ctor", "number", "long-text", "prior-trusted-render", "prior-failed-render", "number-subclass-with-metachar-text", "str-subclass-with-metachar", "how:renamed", "json-render-mode"),
+        required=("how:append", "how:extend", "how:insert", "how:list", "how:tfy", "how:ctor", "number", "long-text", "prior-trusted-render", "prior-failed-render", "number-subclass-with-metachar-text", "str-subclass-with-metachar", "how:renamed", "json-render-mode", "how:samelist", "how:htmltwin"),
         rule="metachar slot not an only child",
         fuzz=60000,
     ),
